@@ -163,10 +163,8 @@ theorem iface_copy_old (fx : Bool) (W : World) (r : Nat) {s : Nat} (h : s < W.ns
 
 theorem access_copy_old (fx : Bool) (W : World) (r : Nat) {i : Nat} (h : i < W.nif) :
     (copy fx W r).access i = W.access i := by
-  simp only [copy]
-  split
-  · omega
-  · rfl
+  have : ¬ W.nif ≤ i := by omega
+  simp [copy, this]
 
 theorem iface_copy_new (fx : Bool) (W : World) (r : Nat) {s : Nat}
     (hm : s ∈ (findIn r W.trees).owned) :
@@ -181,7 +179,10 @@ theorem access_iface_copy_new (fx : Bool) (W : World) (r : Nat) {s : Nat}
     (copy fx W r).access ((copy fx W r).iface (s + W.nsym)) = W.access (W.iface s) := by
   rw [iface_copy_new fx W r hm]
   split
-  · simp [copy]
+  · rename_i hfr
+    simp only [copy]
+    rw [if_pos (by simp; exact ⟨s, hm, hfr, rfl⟩)]
+    simp
   · exact access_copy_old fx W r hlt
 
 /-! ## `view` depends only on the names and dependencies it reads -/
